@@ -100,7 +100,7 @@ def _spec_functions(h):
             return None
         return dict(E=e_pure, CONS=h.fn('CONS_', sym=cons_sym), FIX=h.fn('FIX', sym=fix_sym),
                     EVALD=h.fn('EVALD', sym=evald_sym), COST=h.fn('COST', sym=cost_sym),
-                    STRATEGY=h.fn('STRATEGY', sym=strategy_sym), CALLBACK=h.fn('CALLBACK', sym=callback_sym), GH=gh)
+                    STRATEGY=h.fn('STRATEGY', sym=strategy_sym), CALLBACK=h.fn('CALLBACK', sym=callback_sym, truthy=h.bool('callback_object_is_truthy')), GH=gh)
     raise NotImplementedError('native mode of the DE step contract is served by rtc (bounded layer)')
 
 
